@@ -20,7 +20,7 @@ def _small(args):
             out.append(x_conv.observe_conv(fx, np, [pid], ts, td, codes, route, MODES[(k + 4) % 10], m, byvalue=(k % 2 == 0)))
         # scalars and 2-D shapes
         out.append(x_conv.observe_conv(fx, np, [pid], ts, td, codes[k % len(codes)], route, MODES[(k + 1) % 10], MODES[k % 10], byvalue=(k % 2 == 1)))
-        if len(codes) >= 4 and len(codes) % 2 == 0 and route not in ('setitem-elem', 'setitem-slice'):
+        if len(codes) >= 4 and len(codes) % 2 == 0 and route not in ('setitem-elem', 'setitem-slice', 'resize-view'):
             out.append(x_conv.observe_conv(fx, np, [pid], ts, td, codes, route, MODES[(k + 2) % 10], MODES[(k + 5) % 10],
                                            shape=(2, len(codes) // 2)))
     return _tag(out)
@@ -46,7 +46,7 @@ def _wide(args):
             if vmaxbits + td[2] >= 62 or vmaxbits >= 53 or cur_t[1] > 52:
                 continue
             route = rng.choice(x_conv.ROUTES)
-            shape = (2, len(cur) // 2) if (rng.random() < 0.3 and len(cur) % 2 == 0 and route not in ('setitem-elem', 'setitem-slice')) else None
+            shape = (2, len(cur) // 2) if (rng.random() < 0.3 and len(cur) % 2 == 0 and route not in ('setitem-elem', 'setitem-slice', 'resize-view')) else None
             row = x_conv.observe_conv(fx, np, [pid], cur_t, td, cur if rng.random() < 0.8 else cur[rng.randrange(len(cur))], route,
                                       rng.choice(MODES), rng.choice(MODES), shape=shape, extra={'chain': step}, byvalue=rng.random() < 0.5)
             if row is None:
